@@ -199,7 +199,7 @@ def formatObj (padding : String) (just : Justify) (widthStr : String) (nf : NumF
           | none => throw "⟦unmodelled-display⟧")
   let padding := if padding.isEmpty then " " else padding
   let widthPad := width - formatted.utf8ByteSize
-  if widthPad > 65536 then throw "⟦huge-width⟧" else
+  if widthPad > 100000 then throw "⟦huge-width⟧" else
   let padded := repeatS padding widthPad
   let isInt := match obj with | .int _ => true | _ => false
   let j := match just with
